@@ -725,6 +725,36 @@ def run_two_sample_dims(ctx, N):
         if not np.allclose(sv, svr, rtol=1e-7, atol=1e-9 * scale):
             ctx.violation("C06:two-sample-dims:singular-values", "EOF(center=%s, standardize=%s) on (time, member) samples with %d scattered fully missing samples: singular values %r "
                           "differ from the fit on the reduced data %r" % (cfg["center"], cfg["standardize"], len(rows), sv, svr), replay)
+        else:
+            # transform of data whose entirely missing samples sit elsewhere - among them the FIRST sample of the stacked order: every remaining
+            # sample's scores at its own (time, member) label, NaN (or nothing) at the missing ones
+            try:
+                full = xr.DataArray(M.reshape(nt, nm, p), dims=("time", "member", "x"), coords=da.coords).copy()
+                full.values[:, :, cols] = np.nan
+                tfull = m.transform(full).stack(s=("time", "member")).transpose("s", "mode").values
+                miss2 = sorted(set([0] + [int(x) for x in rng.choice(nt * nm, size=int(rng.integers(0, 3)), replace=False)]))
+                part = full.copy()
+                part.values.reshape(nt * nm, p)[miss2, :] = np.nan
+                tpart = m.transform(part)
+                tp = tpart.stack(s=("time", "member")).transpose("s", "mode")
+                lab = [tuple(x) for x in tp.indexes["s"].tolist()]
+                allab = [(t, mm) for t in range(nt) for mm in (np.arange(nm) + 10).tolist()]
+                bad = None
+                for q, l in enumerate(allab):
+                    if q in miss2:
+                        if l in lab and not np.all(np.isnan(tp.values[lab.index(l)])):
+                            bad = "the entirely missing sample %r has scores" % (l,)
+                    elif l not in lab or not np.allclose(tp.values[lab.index(l)], tfull[q], atol=1e-8 * scale, equal_nan=False):
+                        bad = "sample %r does not carry its own scores" % (l,)
+                    if bad:
+                        break
+                if bad:
+                    ctx.violation("C06:two-sample-dims:transform-with-missing-samples", "EOF on (time, member) samples: transform of data whose entirely missing samples are %r "
+                                  "(stacked positions): %s" % (miss2, bad), dict(replay, transform_missing=miss2))
+            except Exception as e:
+                ctx.violation("C06:two-sample-dims:transform-with-missing-samples:error:" + C.errkind(e), "transform of (time, member) data with entirely missing samples raised %r" % (e,), replay)
+        if not np.allclose(sv, svr, rtol=1e-7, atol=1e-9 * scale):
+            pass
         elif not np.allclose(comps * sg, compr, atol=1e-6) or not np.allclose(sc * sg, scr, atol=1e-6 * scale):
             ctx.violation("C06:two-sample-dims:modes", "EOF on (time, member) samples with scattered fully missing samples: components / scores differ from the fit on the reduced data", replay)
 
